@@ -34,4 +34,28 @@ CHECKS = {
         "coverage-instrumented Release build must produce one identical executed-edge trace per (target, length) over 64 value sets.",
    note="memcheck follows one path per run and does not propagate taint through table look-ups; trace equality is over sampled values; "
         "cache-timing via table indices is outside the property; gcc -O3 build only (clang Release in thorough is not yet added)."),
+ "C01": dict(level="exploration",
+   technique="reference-model oracle (naive Python STB 34.101.31) + inverse/tamper metamorphic oracles under ASan, exhaustive FMT block-count table",
+   text="Every belt mechanism is driven through the high-level and the Start/Step API on exact-size heap buffers: all key lengths, every message "
+        "length 0..80 (CTS 16..47, WBL/KWP every length 32..208), counters crafted to carry out of 32/64/96/128 bits, HMAC keys 0..96, PBKDF2, "
+        "FMT alphabets x word counts; outputs must equal the independent model octet for octet, D(E(x)) = x, and authenticated unwrap must "
+        "reject every single-bit alteration of tag/header and sampled alterations of ciphertext/AD/IV/key. The FMT block-count table is "
+        "compared with exact integer arithmetic (quick: 481k entries; thorough: all 19,660,500).",
+   note="The model is the maintainer's reading of the standard anchored on every Appendix-A vector the repository embeds; messages >= 2^29 "
+        "octets only through the exported length helpers."),
+ "C03": dict(level="exploration",
+   technique="reference-model oracle (bash-f/hash/prg, brng CTR/HMAC, HOTP/TOTP/OCRA in naive Python) over command scripts and boundary catalogues under ASan",
+   text="bash-f on structured states, 16 hash levels x lengths around the rate, bash-prg command scripts (start/restart/absorb/squeeze/encrypt/"
+        "decrypt/ratchet, data lengths straddling the buffer) replayed by the model with a mirrored decrypting automaton, brng CTR with IVs "
+        "that wrap a word or all 256 bits and zero/non-zero additional input, brng HMAC key/IV lengths, OTP digit counts, counter wrap, all 16 "
+        "truncation offsets and OCRA suite combinations; thorough adds rel64, asan32 and every BASH platform variant the CPU supports.",
+   note="belt-hash/HMAC inside brng/botp are the library's own (tied to the standard by C01); models anchored on the appendix vectors in bash/brng/botp tests."),
+ "C08": dict(level="exploration",
+   technique="strict-DER / ISO 7816 reference parsers as oracles + exhaustive <=3-octet TL domain in a C harness + structure-aware mutation under ASan",
+   text="All 16.8M octet strings of length 0..3 go through derTLDec/derDec/derIsValid/derStartsWith on exact-size heap copies against an "
+        "independent C oracle (itself cross-checked against the Python model each run); every typed DER codec, OID, APDU, hex/base64/decimal, "
+        "bignParams, CVC, bpki and secure-messaging decoder receives truncations, single-octet mutations and crafted tag/length forms "
+        "(lengths near SIZE_MAX, non-minimal, 0x80/0xFF); checked: no sanitizer report, consumed <= input, accept iff the strict model accepts, "
+        "Enc(Dec(x)) = x for canonical formats, Dec(Enc(v)) = v.",
+   note="Canonicality asserted only for formats their headers call DER/canonical; legal non-minimal extended APDU codings are tallied, not judged."),
 }
